@@ -647,8 +647,12 @@ func createConnHandler(
 			ctx := stream.Context()
 
 			args := dynamicpb.NewMessage(argsDesc)
-			if err := stream.RecvMsg(args); err != nil {
-				return err
+			first := stream.RecvMsg(args)
+			// A client stream may end before its first message: the backend
+			// still gets the call, with an empty stream.
+			empty := first == io.EOF && sd.ClientStreams
+			if first != nil && !empty {
+				return first
 			}
 
 			if md, ok := metadata.FromIncomingContext(ctx); ok {
@@ -659,13 +663,17 @@ func createConnHandler(
 			if err != nil {
 				return err
 			}
-			if err := clientStream.SendMsg(args); err != nil {
+			if empty {
+				if err := clientStream.CloseSend(); err != nil {
+					return err
+				}
+			} else if err := clientStream.SendMsg(args); err != nil {
 				return err
 			}
 
 			var inErr error
 			var wg sync.WaitGroup
-			if sd.ClientStreams {
+			if sd.ClientStreams && !empty {
 				wg.Add(1)
 				go func() {
 					for {
